@@ -17,7 +17,7 @@ RULE = ("Config = {static,dynamic} x alpha in (0,1] x n_inner x d in 1..5 x stor
         "explained_loss == marginal_loss - model_loss; exact (==) when the case runs in exact rationals, within "
         "16(d+2)t*eps*scale for the float twin of the same case (same seeds, values cast to float). "
         "Non-trivial: d>=2, >=2 explained observations, some non-zero importance, and (static or alpha != 1); distinct by digest of "
-        "(config, executed ops).")
+        "(config, executed ops). TreeStorage + TreeImputer (all four modes) run as float twins only (river trees need real floats).")
 ASSUMPTIONS = ["fractions.Fraction arithmetic", "float twin tolerance scale = 4*#labels*max|coef|*(max|p|+|y|+1)^2 (largest over loss calls so far)"]
 
 
@@ -196,7 +196,43 @@ def make_machine():
     return SageMachine
 
 
-SUBS = {'machine': run_case, 'stream': run_stream}
+def run_tree(case):
+    """Float twin with TreeStorage + TreeImputer (river trees need real floats): the identity must hold after every call."""
+    from . import c18
+    random.seed(case['seeds'][0])
+    np.random.seed(case['seeds'][1])
+    try:
+        ex, storage, names = c18.build(case)
+    except Exception as e:
+        return Result(False, key=f'C01:tree:construct:{type(e).__name__}', detail=repr(e))
+    scale = 1.0
+    worst = 0.0
+    for t, (x, y) in enumerate(c18.stream_of(case, names), start=1):
+        try:
+            ex.explain_one(dict(x), y)
+        except Exception as e:
+            return Result(False, key=f'C01:tree:exception:{type(e).__name__}', detail=f'call {t}: {e!r}')
+        iv = ex.importance_values
+        ml, mdl, el = float(ex.marginal_loss), float(ex.model_loss), float(ex.explained_loss)
+        scale = max(scale, abs(ml) * 4, abs(mdl) * 4, 64.0)
+        tol = 16 * (len(names) + 2) * t * refx.EPS * scale * 64
+        total = float(sum(iv.values()))
+        worst = max(worst, abs(total - el))
+        if abs(total - el) > tol or abs(el - (ml - mdl)) > tol:
+            return Result(False, key='C01:efficiency', detail=(f'[tree imputer {case["imputer"]}] after call {t}: sum of importance values '
+                                                              f'{total!r} vs explained loss {el!r} (tol {tol:g})'))
+    return Result(True, nontrivial=case['T'] >= 10, labels=['tree:' + case['imputer'], 'dynamic' if case['dynamic'] else 'static'])
+
+
+@st.composite
+def tree_cases(draw):
+    return {'cls': 'sage', 'storage': 'tree', 'imputer': draw(st.sampled_from(['tree', 'tree+storage', 'tree+direct', 'tree+storage+direct'])),
+            'd': 3, 'k': 3, 'n_inner': 3 - draw(st.integers(0, 2)), 'dynamic': draw(st.booleans()), 'T': 40 - draw(st.integers(0, 25)),
+            'seeds': [draw(gen.seed32) % 2 ** 31, draw(gen.seed32) % 2 ** 31], 'stream_seed': draw(st.integers(0, 10 ** 6)),
+            'tree_seed': draw(st.sampled_from([7, None])), 'grace': draw(st.sampled_from([5, 8, 20])), 'model_kind': 'plain'}
+
+
+SUBS = {'machine': run_case, 'stream': run_stream, 'tree': run_tree}
 
 
 def replay(sub, case):
@@ -207,4 +243,6 @@ def run(ctx):
     ctx.rule, ctx.assumptions = RULE, ASSUMPTIONS
     if not ctx.machine_search('machine', make_machine(), ctx.n(300, 48000), 15 if not ctx.thorough() else 30):
         return
-    ctx.search('stream', cfgs.config_st(tmax=40 if ctx.thorough() else 12), run_stream, ctx.n(900, 160000))
+    if not ctx.search('stream', cfgs.config_st(tmax=40 if ctx.thorough() else 12), run_stream, ctx.n(900, 160000)):
+        return
+    ctx.search('tree', tree_cases(), run_tree, ctx.n(12, 1600), shrink=False)
